@@ -234,7 +234,8 @@ Section CellP.
   Lemma parse_cell_total s p : parse_cell deser s <> Panic p.
   Proof.
     unfold parse_cell. destruct (hex_decode (trim_quotes s)) as [bs|]; [|discriminate].
-    pose proof (deser_total bs) as Ht. destruct (deser bs) as [[|c [|c' l]]| |p0]; cbn [bind]; try discriminate.
+    pose proof (deser_total bs) as Ht.
+    destruct (deser bs) as [[|c [|c' l]]| |p0]; cbn [bind len_is go_index0]; try discriminate.
     exfalso. exact (Ht p0 eq_refl).
   Qed.
 End CellP.
